@@ -805,7 +805,25 @@ impl<'r> Grammar<'r> {
                         self.km(&v, Mark::Closer(depth + 1));
                         let nm = self.rng.range(1, 3);
                         for _ in 0..nm {
-                            match self.rng.below(8) {
+                            let member_kind = self.rng.below(8);
+                            // an attribute in front of a member is a line of its own at the member's level
+                            if member_kind != 7 && self.rng.chance(1, 6) {
+                                self.tm("[", Mark::Start(depth + 2));
+                                let an = self.rng.pick_str(&["Weak", "Volatile", "Attr", "TestAttribute"]);
+                                self.t(an);
+                                if self.rng.chance(1, 3) {
+                                    self.t("(");
+                                    let av = self.rng.pick_str(&["1", "'x'", "True"]);
+                                    self.t(av);
+                                    self.t(")");
+                                }
+                                if self.rng.chance(1, 5) {
+                                    self.t(",");
+                                    self.t("Second");
+                                }
+                                self.t("]");
+                            }
+                            match member_kind {
                                 7 => {
                                     // nested declaration section; it lasts until the next member that starts with a keyword
                                     let kind = self.rng.below(4);
@@ -2292,6 +2310,62 @@ pub fn directive_soup(rng: &mut Rng) -> String {
     }
     if rng.chance(1, 2) {
         s.push_str(rng.pick_str(&["\nend.", "\nend;", "\n", ""]));
+    }
+    s
+}
+
+/// `asmreg` family (C07): a routine whose body is an asm block, with irregularly spaced instruction lines and comments at
+/// the start, in the middle and at the end of instruction lines - among them formatting toggles (`{pasfmt on}`,
+/// `// pasfmt off`, stray `(* PASFMT ON *)`) - so that an instruction line can start with a token the toggler has marked.
+pub fn asm_regions(rng: &mut Rng) -> String {
+    fn sp(rng: &mut Rng) -> String {
+        " ".repeat(rng.range(1, 4))
+    }
+    fn block_comment(rng: &mut Rng) -> &'static str {
+        rng.pick_str(&["{pasfmt on}", "{pasfmt off}", "(* PASFMT ON *)", "{ note }", "(* x *)", "{PASFMT OFF}", "{pasfmt on }"])
+    }
+    let mut s = String::new();
+    if rng.chance(1, 3) {
+        s.push_str("x  :=  1 ;\n");
+    }
+    s.push_str(rng.pick_str(&["procedure Foo;\nasm\n", "function Bar: Integer;\nasm\n", "procedure P;\nbegin\n  asm\n"]));
+    let begin_wrapped = s.ends_with("  asm\n");
+    let n = rng.range(1, 6);
+    for _ in 0..n {
+        s.push_str(&sp(rng));
+        if rng.chance(1, 4) {
+            s.push_str(block_comment(rng));
+            s.push_str(&sp(rng));
+        }
+        match rng.range(0, 5) {
+            0 => s.push_str(&format!("MOV{}EAX,{}{}", sp(rng), sp(rng), rng.range(1, 9))),
+            1 => s.push_str(&format!("XOR{}EAX ,{}EAX", sp(rng), sp(rng))),
+            2 => s.push_str(&format!("@@loop:{}dec{}ecx", sp(rng), sp(rng))),
+            3 => s.push_str(&format!("push{}ebx{};{}pop{}ebx", sp(rng), sp(rng), sp(rng), sp(rng))),
+            4 => s.push_str(&format!("mov{}[eax+4] ,{}ebx", sp(rng), sp(rng))),
+            _ => s.push_str(&format!("db{}0FFh ,{}'a'", sp(rng), sp(rng))),
+        }
+        if rng.chance(1, 5) {
+            s.push_str(&sp(rng));
+            s.push_str(block_comment(rng));
+            if rng.chance(1, 2) {
+                s.push_str(&format!("{}NOP", sp(rng)));
+            }
+        }
+        if rng.chance(1, 5) {
+            s.push_str(&sp(rng));
+            s.push_str(rng.pick_str(&["// pasfmt off", "// note", "// pasfmt on", ";  comment"]));
+        }
+        s.push('\n');
+        if rng.chance(1, 6) {
+            s.push_str(&sp(rng));
+            s.push_str(rng.pick_str(&["// pasfmt off", "// pasfmt on", "{pasfmt off}", "{pasfmt on}", "// n"]));
+            s.push('\n');
+        }
+    }
+    s.push_str(if begin_wrapped { "  end;\nend;\n" } else { "end;\n" });
+    if rng.chance(1, 2) {
+        s.push_str("y  :=  2 ;\n");
     }
     s
 }
